@@ -216,7 +216,7 @@ pub fn fuzz_types(target: &str) -> Vec<Ty> {
             let (seed, nh, nf) = compiled::GENERATED_PARAMS;
             for d in vmodel::declgen::compiled_batch(seed, nh, nf).all() {
                 let t = Ty::Adt(d);
-                if !t.any(&|x| matches!(x, Ty::Rec(_))) {
+                if compiled::is_compiled(match &t { Ty::Adt(d) => &d.name, _ => unreachable!() }) && !t.any(&|x| matches!(x, Ty::Rec(_))) {
                     v.push(t);
                 }
             }
